@@ -1,7 +1,7 @@
 """C12 — A store call that fails changes nothing observable."""
 from ._store import run_store
 
-THEOREMS = ['failed_store_noop', 'failed_store_observables', 'failed_store_keeps_offsets', 'store_refines_abstract', 'history_refines_abstract', 'abstract_failed_store']
+THEOREMS = ['failed_store_noop', 'failed_store_observables', 'failed_store_keeps_offsets', 'store_refines_abstract', 'history_refines_abstract', 'every_history_refines_abstract', 'abstract_failed_store']
 
 
 def run():
